@@ -343,7 +343,11 @@ class FileManager:
             manifest_data = json.loads(content.decode("utf-8"))
 
             data_files = []
-            for file_entry in manifest_data.get("files", []):
+            # The entries key is REQUIRED: a JSON document without it ('{}', some
+            # other file's content) is not a manifest. Defaulting to [] read it
+            # as a valid EMPTY manifest - scans returned a subset of the rows and
+            # GC deleted the data files the manifest protected.
+            for file_entry in manifest_data["files"]:
                 data_file = DataFile(
                     file_path=file_entry["file_path"],
                     file_format=FileFormat(file_entry["file_format"]),
@@ -457,7 +461,9 @@ class FileManager:
             list_data = json.loads(content.decode("utf-8"))
 
             manifest_files = []
-            for manifest_entry in list_data.get("manifests", []):
+            # Required key, for the reason given in read_manifest_file: '{}' is
+            # not an empty manifest list (it made a broken table read as empty).
+            for manifest_entry in list_data["manifests"]:
                 manifest_file = ManifestFile(
                     manifest_path=manifest_entry["manifest_path"],
                     manifest_length=manifest_entry["manifest_length"],
